@@ -101,4 +101,62 @@ def check(ctx) -> Result:
     res.frozen(okk and "mat=PAULI_MAPPING[ops[0]]" in td and "forginops[1:]" in td and "ops=measurement.split(',')" in td, "K-pauli-expansion-order", "_calculate_density_matrix", dm.site(), dm.qualname,
             "tensor factors follow the order of the measurement string (qubit 0 leftmost)", "Kronecker factors of the Pauli expansion are not in measurement-string order", construct=src(kr[0]) if kr else "")
     res.frozen("expectation/=2**n_qubits" in td and "rho+=expectation*mat" in td, "K-pauli-expansion-order", "_calculate_density_matrix:weights", dm.site(), dm.qualname, "rho = sum <P> P / 2^n", "Pauli expansion weights changed", construct="weights")
+    # ---- conjugation / transposition parity (a Hermitian matrix and its transpose differ by complex conjugation)
+    from .. import conjalg as ca
+    from ..inline import inlined, with_helpers
+    prh = with_helpers(ctx, pr)
+    stores = [a for a in ast.walk(prh.node) if isinstance(a, ast.Assign) and src(a.targets[0]) == "self._rho"]
+
+    def cls_rho(e):
+        if isinstance(e, ast.Call) and src(e.func).split(".")[-1] == "_calculate_density_matrix":
+            return ca.Atom("rho", "herm")
+        return None
+
+    for a in stores:
+        try:
+            v = ca.norm(ca.Evaluator(cls_rho).ev(a.value))
+            good = isinstance(v, ca.Atom) and v.name == "rho" and v.norm().t == 0
+            res.add(good, "K-conj-density", "StateTomography.process", pr.site(a), pr.qualname, "the stored density matrix is the Pauli reconstruction itself (up to Hermitian identities)",
+                    f"the stored density matrix is {v}: transposing a Hermitian matrix without conjugating it flips the sign of every imaginary off-diagonal element - invisible for real states (|0..0>, GHZ), wrong for states with complex relative phases", construct=src(a)[:160])
+        except ca.Unknown as e:
+            res.frozen(False, "K-conj-density", "StateTomography.process", pr.site(a), pr.qualname, "", f"stored value not expressed over the Pauli reconstruction: {e}", construct=src(a)[:160])
+    if not stores:
+        res.frozen(False, "K-conj-density", "StateTomography.process", pr.site(), pr.qualname, "", "store of the reconstructed density matrix not found", construct="")
+    # Pauli factors enter the expansion unconjugated and untransposed (Y^T = Y* = -Y)
+    dmi = inlined(ctx.func(UT, "_calculate_density_matrix").node)
+
+    def cls_p(e):
+        if isinstance(e, ast.Subscript) and "PAULI" in src(e.value):
+            return ca.Atom("P", "herm")
+        if isinstance(e, ast.Name) and e.id == "mat":
+            return ca.Atom("acc", "realsym")
+        return None
+
+    nk = 0
+    for c in ast.walk(dmi):
+        if isinstance(c, (ast.Subscript,)) and "PAULI" in src(c.value) and isinstance(c.ctx, ast.Load):
+            nk += 1
+    parents = {ch: n_ for n_ in ast.walk(dmi) for ch in ast.iter_child_nodes(n_)}
+    flipped = []
+    for c in ast.walk(dmi):
+        if isinstance(c, ast.Subscript) and "PAULI" in src(c.value) and isinstance(c.ctx, ast.Load):
+            # climb through conj / T wrappers
+            x, par_flips = c, 0
+            while True:
+                p_ = parents.get(x)
+                if isinstance(p_, ast.Attribute) and p_.attr == "T":
+                    par_flips ^= 1
+                    x = p_
+                elif isinstance(p_, ast.Attribute) and p_.attr in ("conj", "conjugate", "transpose") and isinstance(parents.get(p_), ast.Call):
+                    par_flips ^= 1
+                    x = parents[p_]
+                elif isinstance(p_, ast.Call) and src(p_.func).split(".")[-1] in ("conj", "conjugate", "transpose") and x in p_.args:
+                    par_flips ^= 1
+                    x = p_
+                else:
+                    break
+            if par_flips:
+                flipped.append(x)
+    res.add(not flipped, "K-conj-density", "_calculate_density_matrix", ctx.func(UT, "_calculate_density_matrix").site(flipped[0]) if flipped else ctx.func(UT, "_calculate_density_matrix").site(), "_calculate_density_matrix",
+            "Pauli matrices enter the expansion as they are", f"a Pauli factor enters the expansion transposed or conjugated (`{src(flipped[0])[:60] if flipped else ''}`): Y^T = -Y, so every term containing Y changes sign", construct=src(flipped[0])[:100] if flipped else "")
     return res
